@@ -46,9 +46,10 @@ NWK1, NWK2 = "((a:1.0,b:2.0):3.0,c:4.0);", "((a:1.0,c:2.0):3.0,b:4.0);"
 
 # ------------------------------------------------------------------------------------------------ writers
 def _seqs(new, aligned):
+    """aligned: "array" (ArrayAlignment) | "aln" (Alignment) | False (SequenceCollection; new=True: new_alignment's)"""
     from cogent3 import make_aligned_seqs, make_unaligned_seqs
     if aligned:
-        return make_aligned_seqs({"a": "ACGT", "b": "AC-T"}, moltype="dna", new_type=new)
+        return make_aligned_seqs({"a": "ACGT", "b": "AC-T"}, moltype="dna", array_align=aligned == "array")
     return make_unaligned_seqs({"a": "ACGT", "b": "ACT"}, moltype="dna", new_type=new)
 
 
@@ -86,7 +87,7 @@ AW_TEXT = "first line\nsecond line\n"
 
 
 def _seq_writer(new, aligned, fname, expect, **kw):
-    site = ("core.new_alignment" if new else "core.alignment") + (".write[aln" if aligned else ".write[coll")
+    site = ("core.new_alignment" if new else "core.alignment") + ".write["
 
     def make():
         obj = _seqs(new, aligned)
@@ -142,18 +143,18 @@ def _raw_writer(how, fname, text=AW_TEXT):
         from cogent3.util import io as cio
 
         def with_(p):
-            with cio.atomic_write(p, mode="w") as f:
+            with cio.atomic_write(p, mode="wt") as f:
                 f.write(text[:half])
                 f.write(text[half:])
 
         def noctx(p):
-            w = cio.atomic_write(p, mode="w")
+            w = cio.atomic_write(p, mode="wt")
             w.write(text[:half])
             w.write(text[half:])
             w.close()
 
         def open_w(p):
-            with cio.open_(p, "w") as f:
+            with cio.open_zip(p, "w") as f:   # what open_(p, "w") dispatches to for a .zip path
                 f.write(text)
 
         def openzip_noctx(p):
@@ -180,25 +181,28 @@ def _table_compress():
 
 # name -> (call-site prefix, destination file name, make() -> (write(path), expected), [name passed to the writer])
 WRITERS = {
-    "aln.old/fasta": _seq_writer(False, True, "out.fasta", FASTA_ALN),
-    "aln.new/fasta": _seq_writer(True, True, "out.fasta", FASTA_ALN),
+    "arrayaln/fasta": _seq_writer(False, "array", "out.fasta", FASTA_ALN),
+    "aln/fasta": _seq_writer(False, "aln", "out.fasta", FASTA_ALN),
     "coll.old/fasta": _seq_writer(False, False, "out.fasta", FASTA_COLL),
     "coll.new/fasta": _seq_writer(True, False, "out.fasta", FASTA_COLL),
-    "aln.old/phylip": _seq_writer(False, True, "out.phylip", PHYLIP_ALN),
-    "aln.new/phylip": _seq_writer(True, True, "out.phylip", PHYLIP_ALN),
-    "aln.old/format=fasta": _seq_writer(False, True, "out.txt", FASTA_ALN, format="fasta"),
-    "aln.new/format=fasta": _seq_writer(True, True, "out.txt", FASTA_ALN, file_format="fasta"),
-    "aln.old/json": _seq_writer(False, True, "out.json", "json"),
-    "aln.new/json": _seq_writer(True, True, "out.json", "json"),
+    "arrayaln/phylip": _seq_writer(False, "array", "out.phylip", PHYLIP_ALN),
+    "aln/phylip": _seq_writer(False, "aln", "out.phylip", PHYLIP_ALN),
+    "aln/format=fasta": _seq_writer(False, "aln", "out.txt", FASTA_ALN, format="fasta"),
+    "coll.new/file_format=fasta": _seq_writer(True, False, "out.txt", FASTA_COLL, file_format="fasta"),
+    "arrayaln/json": _seq_writer(False, "array", "out.json", "json"),
+    "aln/json": _seq_writer(False, "aln", "out.json", "json"),
     "coll.old/json": _seq_writer(False, False, "out.json", "json"),
     "coll.new/json": _seq_writer(True, False, "out.json", "json"),
-    "aln.old/fasta.gz": _seq_writer(False, True, "out.fasta.gz", FASTA_ALN),
-    "aln.new/fasta.gz": _seq_writer(True, True, "out.fasta.gz", FASTA_ALN),
+    "arrayaln/fasta.gz": _seq_writer(False, "array", "out.fasta.gz", FASTA_ALN),
+    "aln/fasta.gz": _seq_writer(False, "aln", "out.fasta.gz", FASTA_ALN),
     "coll.old/fasta.gz": _seq_writer(False, False, "out.fasta.gz", FASTA_COLL),
-    "aln.old/json.gz": _seq_writer(False, True, "out.json.gz", "json"),
-    "aln.old/fasta.zip": _seq_writer(False, True, "out.fasta.zip", FASTA_ALN),
-    "aln.new/fasta.zip": _seq_writer(True, True, "out.fasta.zip", FASTA_ALN),
+    "coll.new/fasta.gz": _seq_writer(True, False, "out.fasta.gz", FASTA_COLL),
+    "aln/json.gz": _seq_writer(False, "aln", "out.json.gz", "json"),
+    "coll.new/json.gz": _seq_writer(True, False, "out.json.gz", "json"),
+    "aln/fasta.zip": _seq_writer(False, "aln", "out.fasta.zip", FASTA_ALN),
+    "coll.old/fasta.zip": _seq_writer(False, False, "out.fasta.zip", FASTA_COLL),
     "coll.new/fasta.zip": _seq_writer(True, False, "out.fasta.zip", FASTA_COLL),
+    "coll.new/json.zip": _seq_writer(True, False, "out.json.zip", "json"),
     "tree/nwk": _tree_writer("out.nwk", NWK1),
     "tree/nwk-no-lengths": _tree_writer("out.nwk", "((a,b),c);", with_distances=False),
     "tree/xml": _tree_writer("out.xml", "xml"),
@@ -230,17 +234,15 @@ WRITERS = {
     "atomic_write/write+close": _raw_writer("noctx", "out.txt"),
     "atomic_write/with.gz": _raw_writer("with", "out.txt.gz"),
     "atomic_write/with.zip": _raw_writer("with", "out.txt.zip"),
-    "atomic_write/in_zip=path": _raw_writer("in_zip", "out.txt.zip"),
     "atomic_write/in_zip=path-20kB": _raw_writer("in_zip", "out.txt.zip", BIG_TEXT),
     "open_zip/w": _raw_writer("open_w", "out.fasta.zip"),
     "open_zip/w-20kB": _raw_writer("open_w", "out.fasta.zip", BIG_TEXT),
-    "open_zip/write+close": _raw_writer("openzip_noctx", "out.fasta.zip"),
 }
 
 
 def site_of(wname):
     w = WRITERS[wname]
-    return w[0] + wname.split("/", 1)[1] + "]"
+    return w[0] + wname.replace("/", ":") + "]"
 
 
 def target_kind(fname):
@@ -333,18 +335,6 @@ def norm_leftover(rel):
     return "/".join(out)
 
 
-def compile_faults(faults):
-    trace, kill_before = [], None
-    for idx, kind, _ in faults:
-        if kind == "kill":
-            kill_before = idx
-        else:
-            while len(trace) <= idx:
-                trace.append(["*", "ok"])
-            trace[idx] = ["*", "fail"]
-    return trace, kill_before
-
-
 def run_writer(wname, dest0, faults):
     from speclib import c19_replay as R
     warnings.filterwarnings("ignore")
@@ -362,8 +352,7 @@ def run_writer(wname, dest0, faults):
         if dest0 == "old":
             pre = old_bytes(fname, opts)
             dest.write_bytes(pre)
-        trace, kill_before = compile_faults(faults)
-        script = R.Script(trace, kill_before=kill_before, full=True)
+        script = R.Script([], full=True, by_name={lab: ("kill" if kind == "kill" else "fail") for lab, kind in faults})
         outcome = "return"
         with R.audited(script, work), R.patched(script):
             try:
@@ -377,24 +366,29 @@ def run_writer(wname, dest0, faults):
         leftovers = sorted(norm_leftover(str(p.relative_to(root))) for p in root.rglob("*") if p not in (dest, by))
         return {"outcome": outcome, "dest": state, "why": why, "leftovers": leftovers,
                 "bystander": by.exists() and by.read_text() == BYSTANDER, "log": list(script.log),
-                "names": [x.split(":", 1)[0] for x in script.log], "failed": list(script.failed),
-                "pos": script.pos, "unintercepted": sorted(set(script.unintercepted)),
+                "names": [x.split(":", 1)[0] for x in script.log if not x.endswith(":killed-before")],
+                "failed": list(script.failed), "hit": list(script.hit), "unintercepted": sorted(set(script.unintercepted)),
                 "error": locals().get("detail", "")}
     finally:
         shutil.rmtree(work, ignore_errors=True)
 
 
+def labels(names):
+    seen, out = {}, []
+    for nm in names:
+        seen[nm] = seen.get(nm, 0) + 1
+        out.append(f"{nm}#{seen[nm]}")
+    return out
+
+
 @functools.lru_cache(maxsize=None)
-def discover(wname, dest0, faults_key):
-    """names of the externals the real code calls under the given (raise-only) faults"""
-    faults = [[k, "raise", ""] for k in faults_key]
-    return tuple(run_writer(wname, dest0, faults)["names"])
+def discover(wname, dest0, failing):
+    """labels ("name#occurrence") of the externals the real code calls when the externals in ``failing`` fail"""
+    return tuple(labels(run_writer(wname, dest0, [[lab, "raise"] for lab in failing])["names"]))
 
 
-def label(names, k):
-    nm = names[k]
-    occ = list(names[:k + 1]).count(nm)
-    return nm if occ == 1 else f"{nm}#{occ}"
+def later(labs, lab):
+    return labs[labs.index(lab) + 1:] if lab in labs else ()
 
 
 def gen_faults(tier, seed):
@@ -403,41 +397,40 @@ def gen_faults(tier, seed):
     for wname in WRITERS:
         for dest0 in ("absent", "old"):
             yield [wname, dest0, []]
-            n0 = discover(wname, dest0, ())
-            for k in range(len(n0)):
-                lk = label(n0, k)
-                yield [wname, dest0, [[k, "kill", lk]]]
-                yield [wname, dest0, [[k, "raise", lk]]]
-                n1 = discover(wname, dest0, (k,))
-                for j in range(k + 1, len(n1)):
-                    lj = label(n1, j)
-                    yield [wname, dest0, [[k, "raise", lk], [j, "kill", lj]]]
-                    yield [wname, dest0, [[k, "raise", lk], [j, "raise", lj]]]
+            l0 = discover(wname, dest0, ())
+            for lk in l0:
+                yield [wname, dest0, [[lk, "kill"]]]
+                yield [wname, dest0, [[lk, "raise"]]]
+                for lj in later(discover(wname, dest0, (lk,)), lk):
+                    yield [wname, dest0, [[lk, "raise"], [lj, "kill"]]]
+                    yield [wname, dest0, [[lk, "raise"], [lj, "raise"]]]
                     if not thorough:
                         continue
-                    n2 = discover(wname, dest0, (k, j))
-                    for i in range(j + 1, len(n2)):
-                        li = label(n2, i)
-                        yield [wname, dest0, [[k, "raise", lk], [j, "raise", lj], [i, "kill", li]]]
-                        yield [wname, dest0, [[k, "raise", lk], [j, "raise", lj], [i, "raise", li]]]
-            if thorough:   # beyond the frontier: 4-5 faults at random positions (skipped when a position is not reached)
-                for _ in range(40):
-                    m = rnd.choice((4, 5))
-                    idx = sorted(rnd.sample(range(len(n0) + 6), m))
-                    fl = [[i, "raise", "?"] for i in idx]
-                    if rnd.random() < 0.5:
-                        fl[-1][1] = "kill"
-                    yield [wname, dest0, fl]
+                    for li in later(discover(wname, dest0, (lk, lj)), lj):
+                        yield [wname, dest0, [[lk, "raise"], [lj, "raise"], [li, "kill"]]]
+                        yield [wname, dest0, [[lk, "raise"], [lj, "raise"], [li, "raise"]]]
+            if thorough:   # beyond the frontier: random walks to 4-6 faults
+                for _ in range(6):
+                    chosen = []
+                    for _ in range(rnd.choice((4, 5, 6))):
+                        labs = discover(wname, dest0, tuple(chosen))
+                        rest = later(labs, chosen[-1]) if chosen else labs
+                        if not rest:
+                            break
+                        chosen.append(rnd.choice(rest))
+                    if len(chosen) >= 4:
+                        fl = [[lab, "raise"] for lab in chosen]
+                        if rnd.random() < 0.5:
+                            fl[-1][1] = "kill"
+                        yield [wname, dest0, fl]
 
 
-def fault_pattern(faults, res):
-    names = res["names"]
-    out = []
-    for idx, kind, lab in faults:
-        if lab in ("", "?"):
-            lab = label(names, idx) if idx < len(names) else "?"
-        out.append(("kill-before@" if kind == "kill" else "raise@") + lab)
-    return "+".join(out) if out else "fault-free"
+def pretty(lab):
+    return lab[:-2] if lab.endswith("#1") else lab
+
+
+def fault_pattern(faults):
+    return "+".join(("kill-before@" if kind == "kill" else "raise@") + pretty(lab) for lab, kind in faults) or "fault-free"
 
 
 def judge(dest0, faults, res, opts=None):
@@ -469,22 +462,31 @@ def judge(dest0, faults, res, opts=None):
     return sym
 
 
+def reached(faults, res):
+    return all(lab in res["hit"] for lab, _ in faults) and \
+        (res["outcome"] == "killed") == any(kind == "kill" for _, kind in faults)
+
+
 def contract_faults(case):
     wname, dest0, faults = case
+    opts = opts_of(wname)
     res = run_writer(wname, dest0, faults)
-    for idx, kind, _ in faults:   # precondition: every scripted fault was reached
-        if kind == "raise" and res["pos"] <= idx:
-            return ("skip",)
-        if kind == "kill" and res["outcome"] != "killed":
-            return ("skip",)
-    sym = judge(dest0, faults, res, opts_of(wname))
-    if sym:
-        pat = fault_pattern(faults, res)
-        return ("fail", f"faults/{site_of(wname)}/{dest0}/{pat}/{sym[0]}",
-                f"{wname}, destination initially {dest0}, faults {faults}: externals {res['log']}; outcome "
-                f"{res['outcome']} {res['error']!r}, destination {res['dest']} {res['why']}, other paths {res['leftovers']}, "
-                f"bystander intact {res['bystander']}; all symptoms {sym}")
-    return ("ok", bool(faults) or res["dest"] == "new")
+    if not reached(faults, res):   # precondition: every scheduled fault was reached
+        return ("skip",)
+    sym = judge(dest0, faults, res, opts)
+    if not sym:
+        return ("ok", bool(faults) or res["dest"] == "new")
+    # minimise the schedule: drop every fault without which the same first symptom still shows
+    minimal = [list(f) for f in faults]
+    for f in list(reversed(minimal)):
+        trial = [g for g in minimal if g != f]
+        r2 = run_writer(wname, dest0, trial)
+        if reached(trial, r2) and judge(dest0, trial, r2, opts)[:1] == sym[:1]:
+            minimal, res = trial, r2
+    return ("fail", f"faults/{site_of(wname)}/{dest0}/{fault_pattern(minimal)}/{sym[0]}",
+            f"{wname}, destination initially {dest0}, minimal fault schedule {minimal} (found with {faults}): externals "
+            f"{res['log']}; outcome {res['outcome']} {res['error']!r}, destination {res['dest']} {res['why']}, other paths "
+            f"{res['leftovers']}, bystander intact {res['bystander']}; all symptoms {judge(dest0, minimal, res, opts)}")
 
 
 # ------------------------------------------------------------------------------------------------ formatting failures
@@ -498,18 +500,17 @@ def _raising_writer(rows, has_header=True):
 
 
 FMTFAIL = {
-    "aln.old/format=bogus": ("core.alignment.write", "out.fasta", lambda p: _seqs(False, True).write(str(p), format="bogus")),
-    "aln.new/format=bogus": ("core.new_alignment.write", "out.fasta", lambda p: _seqs(True, True).write(str(p), file_format="bogus")),
+    "aln.old/format=bogus": ("core.alignment.write", "out.fasta", lambda p: _seqs(False, "aln").write(str(p), format="bogus")),
     "coll.old/format=bogus": ("core.alignment.write", "out.fasta", lambda p: _seqs(False, False).write(str(p), format="bogus")),
     "coll.new/format=bogus": ("core.new_alignment.write", "out.fasta", lambda p: _seqs(True, False).write(str(p), file_format="bogus")),
-    "aln.old/unknown-suffix": ("core.alignment.write", "out.bogus", lambda p: _seqs(False, True).write(str(p))),
-    "aln.new/unknown-suffix": ("core.new_alignment.write", "out.bogus", lambda p: _seqs(True, True).write(str(p))),
-    "aln.old/no-suffix": ("core.alignment.write", "out", lambda p: _seqs(False, True).write(str(p))),
-    "aln.new/no-suffix": ("core.new_alignment.write", "out", lambda p: _seqs(True, True).write(str(p))),
-    "aln.old/bogus.gz": ("core.alignment.write", "out.bogus.gz", lambda p: _seqs(False, True).write(str(p))),
-    "aln.old/bogus.zip": ("core.alignment.write", "out.bogus.zip", lambda p: _seqs(False, True).write(str(p))),
-    "aln.old/bad-kwarg": ("core.alignment.write", "out.fasta", lambda p: _seqs(False, True).write(str(p), nonsense=1)),
-    "aln.new/bad-kwarg": ("core.new_alignment.write", "out.fasta", lambda p: _seqs(True, True).write(str(p), nonsense=1)),
+    "aln.old/unknown-suffix": ("core.alignment.write", "out.bogus", lambda p: _seqs(False, "aln").write(str(p))),
+    "coll.new/unknown-suffix": ("core.new_alignment.write", "out.bogus", lambda p: _seqs(True, False).write(str(p))),
+    "aln.old/no-suffix": ("core.alignment.write", "out", lambda p: _seqs(False, "aln").write(str(p))),
+    "coll.new/no-suffix": ("core.new_alignment.write", "out", lambda p: _seqs(True, False).write(str(p))),
+    "aln.old/bogus.gz": ("core.alignment.write", "out.bogus.gz", lambda p: _seqs(False, "aln").write(str(p))),
+    "aln.old/bogus.zip": ("core.alignment.write", "out.bogus.zip", lambda p: _seqs(False, "aln").write(str(p))),
+    "aln.old/bad-kwarg": ("core.alignment.write", "out.fasta", lambda p: _seqs(False, "aln").write(str(p), nonsense=1)),
+    "coll.new/bad-kwarg": ("core.new_alignment.write", "out.fasta", lambda p: _seqs(True, False).write(str(p), nonsense=1)),
     "table/bedgraph": ("util.table.write", "out.bedgraph", lambda p: _table().write(str(p))),
     "table/bedgraph.gz": ("util.table.write", "out.bedgraph.gz", lambda p: _table().write(str(p))),
     "table/writer-raises": ("util.table.write", "out.tsv", lambda p: _table().write(str(p), writer=_raising_writer)),
@@ -768,7 +769,7 @@ def contract_resume(case):
             if it[0] == "record":
                 return "kill@record-boundary"
             names = ref_logs[it[1]] if it[1] < len(ref_logs) else []
-            ext = label(names, it[2]) if it[2] < len(names) else "return"
+            ext = pretty(labels(names)[it[2]]) if it[2] < len(names) else "return"
             rec = "not_completed" if it[1] < len(calls0) and calls0[it[1]] in want_nc else "completed"
             return f"{'kill-before' if it[3] == 'kill' else 'raise'}@{ext}-inside-{rec}-record-write"
         if len(interrupts) == 1:
